@@ -192,6 +192,89 @@ Section SharedCache.
   Qed.
 End SharedCache.
 
+(** ** a module-level setting read by the memoised function is part of the call *)
+Section SettingMemoProofs.
+  Variables S A KA result : Type.
+  Variable akey : A -> KA.
+  Variable g : S -> A -> result.
+  Variable S_dec : forall a b : S, {a = b} + {a <> b}.
+  Variable KA_dec : forall a b : KA, {a = b} + {a <> b}.
+
+  Definition dec_st_full : forall a b : S * KA, {a = b} + {a <> b}.
+  Proof. decide equality. Defined.
+
+  (** the key keeps the setting (and enough of the arguments): every history of calls under any settings is transparent *)
+  Theorem setting_in_key_transparent : (forall s a1 a2, akey a1 = akey a2 -> g s a1 = g s a2) ->
+    forall h : list (st_call S A), results (st_key_full akey) dec_st_full (st_f g) h = map (st_f g) h.
+  Proof.
+    intros KC. apply memo_transparent. intros [s1 a1] [s2 a2] E. unfold st_key_full, st_f in *. simpl in *.
+    injection E as -> E. now apply KC.
+  Qed.
+
+  (** the key keeps the arguments only: as soon as the setting matters for ONE argument list, the key is not complete ... *)
+  Theorem setting_outside_key_not_complete : forall s1 s2 a, g s1 a <> g s2 a ->
+    ~ key_complete (st_key_args (S := S) akey) (st_f g).
+  Proof. intros s1 s2 a N KC. apply N. exact (KC (s1, a) (s2, a) eq_refl). Qed.
+
+  (** ... and the same call made under the two values of the setting, one after the other, is answered with the FIRST value *)
+  Theorem setting_outside_key_refuted : forall s1 s2 a, g s1 a <> g s2 a ->
+    results (st_key_args akey) KA_dec (st_f g) [(s1, a); (s2, a)] = [g s1 a; g s1 a] /\
+    results (st_key_args akey) KA_dec (st_f g) [(s1, a); (s2, a)] <> map (st_f g) [(s1, a); (s2, a)].
+  Proof.
+    intros s1 s2 a N. unfold results, run, step, st_key_args, st_f. simpl.
+    destruct (KA_dec (akey a) (akey a)) as [_|n]; [|now contradiction n].
+    simpl. split; [reflexivity|]. intros H. injection H as H. now apply N.
+  Qed.
+
+  Theorem setting_outside_key_refuted_pair : forall s1 s2 a, g s1 a <> g s2 a ->
+    ~ key_complete (st_key_args (S := S) akey) (st_f g) /\
+    results (st_key_args akey) KA_dec (st_f g) [(s1, a); (s2, a)] = [g s1 a; g s1 a] /\
+    results (st_key_args akey) KA_dec (st_f g) [(s1, a); (s2, a)] <> map (st_f g) [(s1, a); (s2, a)].
+  Proof. intros s1 s2 a N. split; [exact (setting_outside_key_not_complete s1 s2 a N) | exact (setting_outside_key_refuted s1 s2 a N)]. Qed.
+
+  (** the user program: call, `module.setting = s2` (plain assignment), the same call - the second call replays the first ... *)
+  Theorem plain_assignment_replays : forall s1 s2 a, g s1 a <> g s2 a ->
+    st_prun akey g KA_dec s1 [] [Call a; Assign s2; Call a] = [g s1 a; g s1 a] /\
+    st_prun akey g KA_dec s1 [] [Call a; Assign s2; Call a] <> st_pspec g s1 [Call a; Assign s2; Call a].
+  Proof.
+    intros s1 s2 a N. unfold st_prun, st_pspec, step. simpl.
+    destruct (KA_dec (akey a) (akey a)) as [_|n]; [|now contradiction n].
+    split; [reflexivity|]. intros H. injection H as H. now apply N.
+  Qed.
+
+  (** ... a setter that empties the memo repairs the calls made right after it, but not the call made after the value is
+      restored by plain assignment: that one replays what was stored under the setter's value *)
+  Theorem setter_then_plain_restore_replays : forall s1 s2 a, g s1 a <> g s2 a ->
+    st_prun akey g KA_dec s1 [] [Call a; Setter s2; Call a; Assign s1; Call a] = [g s1 a; g s2 a; g s2 a] /\
+    st_pspec g s1 [Call a; Setter s2; Call a; Assign s1; Call a] = [g s1 a; g s2 a; g s1 a].
+  Proof.
+    intros s1 s2 a N. unfold st_prun, st_pspec, step. simpl.
+    destruct (KA_dec (akey a) (akey a)) as [_|n]; [|now contradiction n].
+    split; reflexivity.
+  Qed.
+
+  (** a program that changes the setting ONLY through the emptying setter is transparent (from any memo consistent with the current setting) *)
+  Theorem setter_only_program_transparent : (forall s a1 a2, akey a1 = akey a2 -> g s a1 = g s a2) ->
+    forall p s c, st_no_assign p = true -> cache_ok akey KA_dec (g s) c -> st_prun akey g KA_dec s c p = st_pspec g s p.
+  Proof.
+    intros KC. induction p as [|e p IH]; intros s c NA OK; [reflexivity|].
+    destruct e as [s'|s'|a]; simpl in *; [discriminate| |].
+    - apply IH; [exact NA|]. intros x r H. discriminate H.
+    - assert (KCs : key_complete akey (g s)) by (intros a1 a2 E; now apply KC).
+      destruct (step_ok A KA result akey KA_dec (g s) KCs c a OK) as [E1 OK1].
+      destruct (step akey KA_dec (g s) c a) as [c1 r]. simpl in E1, OK1. subst r. f_equal. now apply IH.
+  Qed.
+End SettingMemoProofs.
+
+(** non-vacuity over numbers: the time step dt = timescale_factor / maxVM memoised on maxVM alone *)
+Theorem setting_memo_refuted_instance :
+  exists (g : nat -> nat -> nat) (p : list (st_event nat nat)),
+    st_prun (fun a => a) g Nat.eq_dec 10 [] p <> st_pspec g 10 p.
+Proof.
+  exists (fun factor maxvm => factor * maxvm), [Call 3; Assign 1; Call 3].
+  vm_compute. discriminate.
+Qed.
+
 Definition dec_lp_full : forall a b : list (nat * list Z) * list Z * list Z * list Z * Z * Z, {a = b} + {a <> b}.
 Proof. repeat decide equality. Defined.
 Definition dec_lp_names : forall a b : list nat * list Z * list Z * list Z * Z * Z, {a = b} + {a <> b}.
